@@ -73,6 +73,26 @@ class Built:
             self.t.append(y.reshape(shape))
             self.shapes.append(shape)
 
+    def forward_again(self) -> None:
+        """Recompute every non-leaf node from the CURRENT values of the same leaf tensors (a new
+        autograd graph, as at each iteration of a training loop); shapes are kept."""
+        for idx, nd in enumerate(self.prog):
+            op = nd["op"]
+            if op == "leaf":
+                continue
+            a = self.t[nd["a"] - 1]
+            if op == "lin":
+                y = torch.tensor(nd["mat"], dtype=self.dtype) @ a.reshape(-1)
+            elif op == "scale":
+                y = nd["c"] * a.reshape(-1)
+            elif op == "detach":
+                y = a.detach().reshape(-1)
+            else:
+                b = self.t[nd["b"] - 1]
+                y = {"add": lambda: a.reshape(-1) + b.reshape(-1), "mul": lambda: a.reshape(-1) * b.reshape(-1),
+                     "cat": lambda: torch.cat([a.reshape(-1), b.reshape(-1)])}[op]()
+            self.t[idx] = y.reshape(self.shapes[idx])
+
     def node(self, i: int) -> torch.Tensor:      # 1-based, as in the specification
         return self.t[i - 1]
 
